@@ -158,11 +158,10 @@ func getShardBetweenExprRouteResult(rule router.Rule, n *ast.BetweenExpr) ([]int
 
 	if n.Not {
 		if start > last {
-			start, last = last, start
-			start = adjustShardIndex(rangeShard, rightValue, start)
-		} else {
-			start = adjustShardIndex(rangeShard, leftValue, start)
+			// the bounds are reversed (left > right): NOT BETWEEN matches every row
+			return rule.GetSubTableIndexes(), nil
 		}
+		start = adjustShardIndex(rangeShard, leftValue, start)
 
 		l1 := makeList(rule.GetFirstTableIndex(), start+1)
 		l2 := makeList(last, rule.GetLastTableIndex()+1)
